@@ -95,7 +95,23 @@ def run(pid, root, quiet=False, jobs=None):
                     continue
                 rules = sorted({f.split()[0] for f in rep.get('findings', []) if f.startswith('R')})
                 work.append(({'name': f'seeded/{name}', 'kind': 'seeded', 'expect': None, 'any_of': rules, 'edits': []}, vroot))
-        res['variants'] = len(variants) + sum(1 for (v, _r) in work if v['name'].startswith('seeded/'))
+        # behaviour-preserving refactorings written by independent agents (kept under /verif/benign): must add no finding
+        benign_dir = os.path.join(os.path.dirname(os.path.dirname(os.path.abspath(__file__))), 'benign')
+        if os.path.isdir(benign_dir):
+            import subprocess
+            for name in sorted(os.listdir(benign_dir)):
+                if not name.endswith('.diff'):
+                    continue
+                vroot = os.path.join(scratch, 'benign_' + name[:-5])
+                os.makedirs(os.path.join(vroot, 'src', 'pydsol'), exist_ok=True)
+                shutil.copytree(base_pkg, os.path.join(vroot, PKG_REL))
+                pr = subprocess.run(['git', 'apply', '--whitespace=nowarn', os.path.join(benign_dir, name)], cwd=vroot,
+                                    stdout=subprocess.PIPE, stderr=subprocess.STDOUT, text=True)
+                if pr.returncode != 0:
+                    res['skipped'].append(f'benign/{name}: patch no longer applies to the current tree')
+                    continue
+                work.append(({'name': f'benign/{name[:-5]}', 'kind': 'benign', 'edits': []}, vroot))
+        res['variants'] = len(variants) + sum(1 for (v, _r) in work if v['name'].startswith('seeded/') or v['name'].startswith('benign/'))
         res['applicable'] = len(work)
         jobs = jobs or min(16, max(1, len(work)))
         if work:
